@@ -365,13 +365,13 @@ func main() {
 			b := bests[sig]
 			detail := map[string]interface{}{
 				"type": b.r.kind, "value": b.r.label, "marshalizer": b.r.cfg,
-				"rewrites":       b.w.path,
-				"features":       b.w.feats,
-				"canonical_hex":  hex.EncodeToString(b.r.canon),
-				"canonical_hash": hex.EncodeToString(b.r.canonHash),
-				"encoding_hex":   hex.EncodeToString(b.w.buf),
-				"encoding_hash":  hex.EncodeToString(b.w.hash),
-				"what":           "both byte strings are accepted by the real constructor, decode to Equal structs, pass CheckValidity (real signature check) and have different Hash()",
+				"rewrites":                      b.w.path,
+				"features":                      b.w.feats,
+				"canonical_hex":                 hex.EncodeToString(b.r.canon),
+				"canonical_hash":                hex.EncodeToString(b.r.canonHash),
+				"encoding_hex":                  hex.EncodeToString(b.w.buf),
+				"encoding_hash":                 hex.EncodeToString(b.w.hash),
+				"what":                          "both byte strings are accepted by the real constructor, decode to Equal structs, pass CheckValidity (real signature check) and have different Hash()",
 				"encodings_with_this_signature": b.n,
 			}
 			c.ViolationR(sig, b.w.depth, detail, replayCase{b.r.kind, b.r.label, b.r.cfg, hex.EncodeToString(b.w.buf)})
